@@ -733,3 +733,26 @@ func lemmaCompound(c CompoundPacket) (verr error, name string, cerr error, merr 
 	}
 	return verr, name, cerr, merr, uerr
 }
+
+// lemmaDestSSRCStable (C10, second sentence): DestinationSSRC is the same for a packet built in memory and for the
+// same packet after an encode/decode round trip through rtcp.Marshal / rtcp.Unmarshal.
+func lemmaDestSSRCStable(ps []Packet) (same bool, err, err2 error) {
+	var before [][]uint32
+	for _, p := range ps {
+		before = append(before, append([]uint32(nil), p.DestinationSSRC()...))
+	}
+	out, err := Marshal(ps)
+	if err != nil {
+		return false, err, nil
+	}
+	qs, err2 := Unmarshal(out)
+	if err2 != nil || len(qs) != len(ps) {
+		return false, nil, err2
+	}
+	for k := range qs {
+		if !seqEq(before[k], qs[k].DestinationSSRC()) {
+			return false, nil, nil
+		}
+	}
+	return true, nil, nil
+}
